@@ -215,6 +215,7 @@ impl<'a> Interp<'a> {
                         for p in t.msgs.iter_mut() {
                             p.clear();
                         }
+                        t.offsets.clear();
                     }
                 }
                 Ok(ok)
@@ -247,7 +248,7 @@ impl<'a> Interp<'a> {
                     self.note_create(tid.is_some());
                     self.streams.get_mut(&sid.unwrap()).unwrap().topics.insert(
                         gid,
-                        MTopic { id: gid, name, partitions: partitions as u32, expiry, max_size, repl: repl.unwrap_or(1), groups: BTreeMap::new(), msgs: vec![vec![]; partitions as usize] },
+                        MTopic { id: gid, name, partitions: partitions as u32, expiry, max_size, repl: repl.unwrap_or(1), groups: BTreeMap::new(), msgs: vec![vec![]; partitions as usize], offsets: BTreeMap::new() },
                     );
                 }
                 Ok(ok)
@@ -313,9 +314,11 @@ impl<'a> Interp<'a> {
                 let r = n.block_on(async { self.cl(via).purge_topic(&sident, &tident).await });
                 let ok = self.verdict("purge_topic", r, exp)?;
                 if ok {
-                    for p in self.streams.get_mut(&sid.unwrap()).unwrap().topics.get_mut(&tid.unwrap()).unwrap().msgs.iter_mut() {
+                    let t = self.streams.get_mut(&sid.unwrap()).unwrap().topics.get_mut(&tid.unwrap()).unwrap();
+                    for p in t.msgs.iter_mut() {
                         p.clear();
                     }
+                    t.offsets.clear();
                 }
                 Ok(ok)
             }
@@ -353,6 +356,9 @@ impl<'a> Interp<'a> {
                     t.partitions -= rm;
                     for _ in 0..rm {
                         t.msgs.pop();
+                    }
+                    if t.partitions == 0 {
+                        t.offsets.clear(); // partition 1 is gone, and its stored offsets with it
                     }
                     self.out.label("partitions-deleted");
                 }
@@ -397,7 +403,14 @@ impl<'a> Interp<'a> {
                 let r = n.block_on(async { self.cl(via).delete_consumer_group(&sident, &tident, &gident).await });
                 let ok = self.verdict("delete_consumer_group", r, exp)?;
                 if ok {
-                    self.streams.get_mut(&sid.unwrap()).unwrap().topics.get_mut(&tid.unwrap()).unwrap().groups.remove(&gid.unwrap());
+                    let t = self.streams.get_mut(&sid.unwrap()).unwrap().topics.get_mut(&tid.unwrap()).unwrap();
+                    t.groups.remove(&gid.unwrap());
+                    if t.offsets.remove(&(true, gid.unwrap())).is_some() {
+                        self.out.label("group-deleted-with-stored-offset");
+                        if self.focus() == "C06" {
+                            self.out.nontrivial = true;
+                        }
+                    }
                     self.note_delete();
                 }
                 Ok(ok)
@@ -516,6 +529,45 @@ impl<'a> Interp<'a> {
                 if ok {
                     self.streams.get_mut(&sid.unwrap()).unwrap().topics.get_mut(&tid.unwrap()).unwrap().msgs[0].extend(payloads);
                     self.out.label("messages-sent");
+                }
+                Ok(ok)
+            }
+            COp::StoreOffset { stream, topic, who, group } => {
+                let (sid, sident) = self.stream_ref(&stream, Via::Tcp);
+                let (tid, tident) = self.topic_ref(sid, &topic, Via::Tcp);
+                let parts = sid.and_then(|s| self.streams.get(&s)).and_then(|s| tid.and_then(|t| s.topics.get(&t))).map(|t| t.partitions).unwrap_or(0);
+                if tid.is_none() || parts == 0 {
+                    return Ok(true);
+                }
+                let mut have = self.streams[&sid.unwrap()].topics[&tid.unwrap()].msgs[0].len();
+                if have == 0 {
+                    // an offset can only be stored where a message is: send one first
+                    self.serial += 1;
+                    let p = msgs::fill(0xC0FFEE00 + self.serial, 24);
+                    let mut ms = vec![Message::new(None, Bytes::from(p.clone()), None)];
+                    let n = self.node.as_ref().unwrap();
+                    let r = n.block_on(async { self.tcp.as_ref().unwrap().send_messages(&sident, &tident, &Partitioning::partition_id(1), &mut ms).await });
+                    if !self.verdict("send_messages", r, Exp::Ok)? {
+                        return Ok(false);
+                    }
+                    self.streams.get_mut(&sid.unwrap()).unwrap().topics.get_mut(&tid.unwrap()).unwrap().msgs[0].push(p);
+                    have = 1;
+                }
+                let (key, consumer) = match &group {
+                    None => ((false, who as u32), Consumer::new(Identifier::numeric(who as u32).unwrap())),
+                    Some(g) => {
+                        let (gid, _) = self.group_ref(sid, tid, g, Via::Tcp);
+                        let Some(gid) = gid else { return Ok(true) };
+                        ((true, gid), Consumer::group(Identifier::numeric(gid).unwrap()))
+                    }
+                };
+                let offset = have as u64 - 1;
+                let n = self.node.as_ref().unwrap();
+                let r = n.block_on(async { self.tcp.as_ref().unwrap().store_consumer_offset(&consumer, &sident, &tident, Some(1), offset).await });
+                let ok = self.verdict("store_consumer_offset", r, Exp::Ok)?;
+                if ok {
+                    self.streams.get_mut(&sid.unwrap()).unwrap().topics.get_mut(&tid.unwrap()).unwrap().offsets.insert(key, offset);
+                    self.out.label("consumer-offset-stored");
                 }
                 Ok(ok)
             }
